@@ -940,7 +940,7 @@ class GT:
             return x.get("k") == "MCall" and callee_name(x) == "map" and len(x.get("a", [])) == 1
         if is_map(t) == is_map(e):
             return None
-        lookup, ident, in_then = (t, e, True) if is_map(t) else (e, t, False)
+        lookup, ident, in_then = (t, n["else"], True) if is_map(t) else (e, n["then"], False)
         if render(self.rs.value(ident)) != render(self.rs.value(lookup["a"][0])) or self.rs.path(ident) != self.rs.path(lookup["a"][0]):
             return ("bad", "identity branch yields %s but the permutation is applied to %s" % (render(ident), render(lookup["a"][0])))
         atoms = []
@@ -1379,7 +1379,9 @@ def declare_rules(ck):
             "(or k^2) times too large", 13)
     ck.rule("E2.cell-index", "index kinds in the child-cell loops of the GridTransfer assemblers: evaluators / dof-mappings of the fine (coarse) space are prepared with a cell "
             "index of the fine (coarse) mesh in its own (possibly permuted) numbering; get_perm() maps mesh numbering -> 2-level ordering, get_inv_perm() back, the "
-            "emptiness guard tests the permutation that is applied. Broken => wrong child cells for every permuted mesh (or every mesh)", 78)
+            "guard of a conditional lookup (bool locals resolved, !empty() / size()>0 normalised) is logically equivalent to 'the permutation that is applied is non-empty' "
+            "— a guard that also depends on the other level's permutation skips a needed lookup when exactly one level is permuted. "
+            "Broken => wrong child cells for every permuted mesh (or every mesh)", 78)
     ck.rule("E2.child-cell-map", "CoarseFineCellMapping is built from (fine mesh, coarse mesh) and calc_fcell receives (ccell = coarse cell in 2-level ordering, child = child number); "
             "swapped arguments pick cells of other parents for every mesh with more cells than children", 13)
     ck.rule("E2.local-dof-index", "basis function arrays phi[] of the fine (coarse) space data are indexed by a loop variable bounded by the number of local dofs of the same space; "
